@@ -144,7 +144,22 @@ class CSSParser:
         self.__parseSetting(True)
         try:
             # TODO: py3 needs bytes here!
+            inherit = None
             if isinstance(cssText, bytes):
+                if encoding is None:
+                    # what the codec decides on by a BOM: the sheets imported
+                    # without information of their own use it too (an
+                    # @charset rule is part of the sheet and known anyway)
+                    for bom, name in (
+                        (codecs.BOM_UTF32_BE, 'utf-32-be'),
+                        (codecs.BOM_UTF32_LE, 'utf-32-le'),
+                        (codecs.BOM_UTF16_BE, 'utf-16-be'),
+                        (codecs.BOM_UTF16_LE, 'utf-16-le'),
+                    ):
+                        if cssText.startswith(bom):
+                            # (they have no BOM of their own to tell)
+                            inherit = name
+                            break
                 cssText = codecs.getdecoder('css')(cssText, encoding=encoding)[0]
 
             if validate is None:
@@ -168,6 +183,7 @@ class CSSParser:
                 self.__tokenizer.tokenize(cssText, fullsheet=True),
                 encodingOverride=override,
                 encoding=detected,
+                inherit=inherit,
             )
         finally:
             # also if e.g. decoding or a fetcher raises
